@@ -37,6 +37,81 @@ def fmt_atoms(atoms):
 
 # ---------------------------------------------------------------------- R6 (a) consumption and (c) identity
 
+def _uses_stream(node, names):
+    """Does `node` (a statement / expression) consume one of the stream names: for-loop / enumerate over it, yield from it,
+    drain, or passing it as an argument to some call (delegation, checked separately)?"""
+    for n in ast.walk(node):
+        if isinstance(n, (ast.For, ast.AsyncFor)):
+            it = n.iter
+            if isinstance(it, ast.Call) and isinstance(it.func, ast.Name) and it.func.id in ('enumerate', 'iter', 'zip') and it.args:
+                if any(pseudo(a) in names for a in it.args):
+                    return True
+            if pseudo(it) in names:
+                return True
+        elif isinstance(n, ast.comprehension):
+            it = n.iter
+            if isinstance(it, ast.Call) and isinstance(it.func, ast.Name) and it.func.id in ('enumerate', 'iter', 'zip') and it.args:
+                it = it.args[0]
+            if pseudo(it) in names:
+                return True
+        elif isinstance(n, ast.YieldFrom) and pseudo(n.value) in names:
+            return True
+        elif isinstance(n, ast.Call) and any(pseudo(a) in names for a in list(n.args) + [k.value for k in n.keywords]):
+            return True
+        elif isinstance(n, ast.Return) and n.value is not None and pseudo(n.value) in names:
+            return True
+    return False
+
+
+def wrapper_consumes(ctx, fi, param, depth=0):
+    """Every normally terminating path through a row wrapper consumes its stream parameter completely: it loops over it
+    (without break / return inside that loop), yields from it, drains it, returns it, or hands it to a callee that does.
+    -> list of offending path descriptions (empty = ok)"""
+    problems = []
+    if isinstance(fi.node, ast.Lambda):
+        return problems
+    names = {param}
+    for n in own_nodes(fi.node):
+        if isinstance(n, ast.Assign) and len(n.targets) == 1 and isinstance(n.targets[0], ast.Name):
+            v = n.value
+            if isinstance(v, ast.Call) and any(pseudo(a) in names for a in v.args):
+                names.add(n.targets[0].id)
+            elif pseudo(v) in names:
+                names.add(n.targets[0].id)
+    en = Enumerator(where=fi.qualname, relevant=lambda x: _uses_stream(x, names) if isinstance(x, (ast.stmt, ast.expr)) else False)
+    for p in en.paths(fi.node.body):
+        if p.term == RAISE:
+            continue
+        used = False
+        for it in p.items:
+            if it.kind in ('stmt', 'loop', 'loop_exit', 'opaque_if', 'return', 'assert', 'with', 'guard'):
+                node = it.node if it.kind != 'with' else it.node.context_expr
+                if it.kind == 'guard':
+                    continue
+                if _uses_stream(node, names):
+                    used = True
+                    if it.kind == 'loop_exit':
+                        problems.append('leaves the loop over the stream early: ' + ' ; '.join(p.describe())[:300])
+        if not used:
+            problems.append('ends without reading the stream: ' + ' ; '.join(p.describe())[:300])
+    # early exits inside the loop over the stream
+    for lp in own_nodes(fi.node):
+        if isinstance(lp, (ast.For,)):
+            it = lp.iter
+            if isinstance(it, ast.Call) and isinstance(it.func, ast.Name) and it.func.id == 'enumerate' and it.args:
+                it = it.args[0]
+            if pseudo(it) in names:
+                for x in ast.walk(lp):
+                    if isinstance(x, ast.Break):
+                        # a break belonging to a nested loop is fine
+                        q = x
+                        while not isinstance(q, (ast.For, ast.While)):
+                            q = q._parent
+                        if q is lp:
+                            problems.append('break inside the loop over the upstream stream (line %d)' % x.lineno)
+    return problems
+
+
 def r6_consumption(ctx, steps=None, rule='R6a'):
     run = ctx.run
     run.rule(rule, 'STREAM-SIGNATURE(a): in the stream phase of every step each upstream resource is, on every path of '
@@ -44,6 +119,7 @@ def r6_consumption(ctx, steps=None, rule='R6a'):
                    'has no early exit. A resource that is merely skipped starves the steps and observers upstream of it.')
     steps = steps if steps is not None else package_steps(ctx.repo)
     n = 0
+    seen_wrappers = set()
     for fi in steps:
         if is_source_step(ctx, fi):
             run.ok(rule, fi.where, fi.qualname, 'source step (replaces upstream package), nothing to consume')
@@ -69,6 +145,25 @@ def r6_consumption(ctx, steps=None, rule='R6a'):
                           'upstream resource is neither yielded nor drained on this path (term=%s): everything '
                           'upstream of this step sees an incomplete stream' % s.term,
                           detail=s.describe(), path=s.path.describe())
+                # delegation: the wrapper / indexer the resource is handed to must itself read it on every path
+                calls = [y.value for k, y in s.yields if k == 'wrap' and isinstance(y.value, ast.Call)]
+                calls += [d.args[0] for d in s.drains if d.args and isinstance(d.args[0], ast.Call)]
+                for c in calls:
+                    idx = [i for i, a in enumerate(c.args) if pseudo(a) == rl.var]
+                    if not idx:
+                        continue
+                    for t in ctx.res.resolve_call(c):
+                        if isinstance(t, FuncInfo) and not isinstance(t.node, ast.Lambda):
+                            ps = [p for p in t.params if p not in ('self', 'cls')]
+                            if idx[0] < len(ps):
+                                key = (t.qualname, ps[idx[0]])
+                                if key in seen_wrappers:
+                                    continue
+                                seen_wrappers.add(key)
+                                probs = wrapper_consumes(ctx, t, ps[idx[0]])
+                                run.check(not probs, rule, t.where, t.qualname, 'wrapper reads %s on every path' % ps[idx[0]],
+                                          'the wrapper a resource is handed to does not read it completely on every path, so '
+                                          'steps and observers upstream see an incomplete stream: ' + '; '.join(probs)[:400])
     return n
 
 
